@@ -24,7 +24,7 @@ def run(repo, filt='', seed=0, timeout=1500):
         for f in os.listdir(os.path.join(VERIF, 'witness')):
             if f.endswith('.rs'):
                 shutil.copy(os.path.join(VERIF, 'witness', f), os.path.join(wdst, f))
-        env = dict(os.environ, CARGO_TARGET_DIR=os.path.join(scratch, 'target'), CARGO_NET_OFFLINE='true', VERIF_SEED=str(seed),
+        env = dict(os.environ, CARGO_TARGET_DIR=os.path.join(scratch, 'target'), CARGO_NET_OFFLINE='true', VERIF_SEED=str(seed), VERIF_TIER=os.environ.get('VERIF_TIER', 'quick'),
                    RUSTFLAGS='-Awarnings')
         cmd = ['cargo', 'test', '--offline', '--test', 'vx_witness', '--', '--nocapture', '--test-threads', '8']
         if filt:
